@@ -107,9 +107,35 @@ fn gen_doc(rng: &mut Rng, d: usize, fmt: Format) -> DocSpec {
         }
         tests.push(t);
     }
+    if !md {
+        skip_then_hard_exit(rng, &mut tests, DEFAULT_SKIP_CODE);
+    }
     let mut doc = DocSpec::new(&format!("d{d}.{}", if md { "md" } else { "t" }), fmt, tests);
     doc.skip_code = doc_code;
     doc
+}
+
+/// script mode: a test case returned the skip code from a sub-shell (the script runs on) and a
+/// LATER test case ends the shared script with another code. The document is skipped all the
+/// same ("if any test case of a document exits with its skip code ...")
+fn skip_then_hard_exit(rng: &mut Rng, tests: &mut [TestSpec], code: i32) {
+    let Some(i) = tests.iter().position(|t| t.exit == code) else {
+        return;
+    };
+    if tests[i].hard_exit || i + 1 >= tests.len() || !rng.chance(2, 5) {
+        return;
+    }
+    let j = i + 1 + rng.below(tests.len() - i - 1);
+    let exit = *rng.pick(&[3, 0, 1, 2]);
+    if exit == code {
+        return;
+    }
+    let mut t = TestSpec::pass(&tests[j].id.clone());
+    t.skip_code = tests[j].skip_code;
+    t.exit = exit;
+    t.hard_exit = true;
+    t.expect_code = if rng.bool() { Some(exit) } else { None };
+    tests[j] = t;
 }
 
 /// a Markdown document for `--cram-compat`: all test cases run in ONE script, so they must share
@@ -137,6 +163,7 @@ fn scriptify(rng: &mut Rng, doc: &mut DocSpec) {
             t.hard_exit = false;
         }
     }
+    skip_then_hard_exit(rng, &mut doc.tests, code);
 }
 
 fn gen_run(rng: &mut Rng) -> RunSpec {
@@ -240,7 +267,7 @@ impl Monitor for C15 {
     fn plan(&self, tier: Tier) -> Plan {
         let mut p = Plan::new(
             tier.pick(400, 6000),
-            "runs of 1-3 documents (Markdown/Cram); skip code default 80, per document (front-matter defaults) or per test case; skipping test case first/middle/last, by `exit N` or `(exit N)`; a quarter of the runs under --cram-compat (Markdown documents executed as one script with one skip code); neighbours that pass, fail, expect [80] / the skip code, exit with somebody else's code, time out; non-trivial = a document the model says is skipped, or a document where a test case exits with a code that is a skip code elsewhere (80, the document's, a neighbour's) without skipping; distinct = hash of (format, end, position, classes per test case) over the run",
+            "runs of 1-3 documents (Markdown/Cram); skip code default 80, per document (front-matter defaults) or per test case; skipping test case first/middle/last, by `exit N` or `(exit N)`; in script mode also `(exit <skip code>)` followed later by a hard `exit` with another code; a quarter of the runs under --cram-compat (Markdown documents executed as one script with one skip code); neighbours that pass, fail, expect [80] / the skip code, exit with somebody else's code, time out; non-trivial = a document the model says is skipped, or a document where a test case exits with a code that is a skip code elsewhere (80, the document's, a neighbour's) without skipping; distinct = hash of (format, end, position, classes per test case) over the run",
         );
         p.chunk = tier.pick(2, 4);
         p.case_timeout_s = 120;
@@ -254,6 +281,7 @@ impl Monitor for C15 {
             ("near-miss:foreign-code-no-skip".into(), tier.pick(11, 130)),
             ("skip:custom-code".into(), tier.pick(30, 360)),
             ("skipper-ran".into(), tier.pick(70, 800)),
+            ("script:skip-then-hard-exit".into(), tier.pick(3, 40)),
             ("kind:skipped".into(), tier.pick(200, 2400)),
         ];
         p.assumptions = vec![
@@ -350,6 +378,9 @@ impl Monitor for C15 {
                 }
                 if t.expect_code == Some(t.exit) {
                     buckets.push("skip:code-was-expected".into());
+                }
+                if d.script && spec.tests.iter().skip(by + 1).any(|x| x.hard_exit && x.exit != t.exit) && !t.hard_exit {
+                    buckets.push("script:skip-then-hard-exit".into());
                 }
                 buckets.push(format!("skip:position={}", if by == 0 { "first" } else if by + 1 == d.seq.len() { "last" } else { "middle" }));
             } else {
